@@ -1,15 +1,15 @@
 SPECIFICATION GenSpec
 CONSTANTS
-  Peers <- P3
-  PeerSeq <- PS3
+  Peers <- P2
+  PeerSeq <- PS2
   Trees <- T2
   Acl <- AclS
-  Kv <- None
+  Kv <- KvS
   Changes <- C2
   MaxPend = 3
-  NoSpace <- None
+  NoSpace <- NS2
   Dev <- None
-  Budget <- Bg3
-  GenDepth = 50
+  Budget <- Bg
+  GenDepth = 40
 INVARIANT Emit
 CHECK_DEADLOCK FALSE
